@@ -112,7 +112,7 @@ def to_smt2(axioms, ob):
         s.add(h)
     if not ob.expect_sat:
         s.add(z3.Not(ob.goal))
-    return s.to_smt2()
+    return _fix_decl_order(s.to_smt2())
 
 
 def rest_smt2(axioms, ob):
@@ -134,7 +134,7 @@ def rest_smt2(axioms, ob):
         s.add(a)
     for h in rest_h:
         s.add(h)
-    return s.to_smt2()
+    return _fix_decl_order(s.to_smt2())
 
 
 _CONST_CACHE = {}
@@ -191,7 +191,7 @@ def near_smt2(axioms, ob, depth):
     for h in _O.hyps:
         s.add(h)
     s.add(z3.Not(ob.goal))
-    return s.to_smt2()
+    return _fix_decl_order(s.to_smt2())
 
 
 def to_smt2_full(axioms, ob):
@@ -202,7 +202,21 @@ def to_smt2_full(axioms, ob):
         s.add(h)
     if not ob.expect_sat:
         s.add(z3.Not(ob.goal))
-    return s.to_smt2()
+    return _fix_decl_order(s.to_smt2())
+
+
+def _fix_decl_order(text):
+    """z3's printer may declare a datatype before an uninterpreted sort that occurs (nested in an array sort) in one of its fields: move all
+    `declare-sort` commands to the front."""
+    lines = text.split("\n")
+    sorts = [ln for ln in lines if ln.startswith("(declare-sort ")]
+    if not sorts:
+        return text
+    rest = [ln for ln in lines if not ln.startswith("(declare-sort ")]
+    k = 0
+    while k < len(rest) and (rest[k].startswith(";") or rest[k].startswith("(set-")):
+        k += 1
+    return "\n".join(rest[:k] + sorts + rest[k:])
 
 
 def _solve_z3(text, timeout_ms, want_model):
